@@ -68,5 +68,18 @@ def run_corpus(pid, chk):
             chk.obligations.append(("seeded change %s detected" % name, ok, None))
             if not ok:
                 chk.control("seeded change %s detected" % name, False)
+    # negative controls: behaviour-preserving refactorings must stay silent
+    ben = sorted(glob.glob(os.path.join(VERIF, "benign", "*.patch")))
+    if ben:
+        r = subprocess.run([os.path.join(VERIF, "tools", "run_benign.py"), "--prop", pid], capture_output=True, text=True,
+                           timeout=7200)
+        for line in r.stdout.splitlines():
+            m = re.match(r"^(\S+\.patch)\s+(SILENT|ALARM.*)$", line)
+            if m:
+                ok = m.group(2) == "SILENT"
+                chk.obligations.append(("benign refactoring %s: check stays silent" % m.group(1), ok, None))
+                if not ok:
+                    chk.control("benign refactoring %s stays silent (%s)" % (m.group(1), m.group(2)[:120]), False)
+    chk.cov["benign_refactorings"] = len(ben)
     chk.cov["mutants"] = len(muts)
     chk.cov["seeded_changes"] = len(seeds)
